@@ -9,8 +9,14 @@ KindsAll == {
     [cls |-> "deadband", end |-> 80000, max |-> 160000],
     [cls |-> "finite", levels |-> <<0, 80000, 160000, 240000, 320000>>],
     [cls |-> "finite", levels |-> <<320000, 60000, 60000, 130000>>],     \* unsorted, duplicate, no 0
-    [cls |-> "finite", levels |-> <<100000>>] }
+    [cls |-> "finite", levels |-> <<100000>>],
+    \* bidirectional stations: the allowable set reaches below zero (negative pilots are only ever applied to a vacant
+    \* station here, see SetPilot), and every advertised value - the negative ones too - is accepted
+    [cls |-> "cont", min |-> -160000, max |-> 160000],
+    [cls |-> "finite", levels |-> <<160000, -80000, 80000, -160000>>] }
 KindsQuick == {
+    [cls |-> "cont", min |-> -160000, max |-> 160000],
+    [cls |-> "finite", levels |-> <<160000, -80000, 80000, -160000>>],
     [cls |-> "cont", min |-> 60000, max |-> 160000],
     [cls |-> "deadband", end |-> 60000, max |-> 320000],
     [cls |-> "finite", levels |-> <<320000, 60000, 60000, 130000>>] }
